@@ -25,10 +25,10 @@ type c01Case struct {
 	UntrustedZero bool   `json:"untrusted_zero"`
 	Chain         int    `json:"chain"` // 0 equal, 1 different, 2 equal ignoring case
 	THeight       uint64 `json:"t_height"`
-	Rel           int    `json:"rel"`       // index into rels
-	UTime         int    `json:"u_time"`    // index into utimes (relative to now)
-	TTime         int    `json:"t_time"`    // index into ttimes (trusted relative to untrusted)
-	TypeRes       int    `json:"type_res"`  // index into typeResKinds
+	Rel           int    `json:"rel"`        // index into rels
+	UTime         int    `json:"u_time"`     // index into utimes (relative to now)
+	TTime         int    `json:"t_time"`     // index into ttimes (trusted relative to untrusted)
+	TypeRes       int    `json:"type_res"`   // index into typeResKinds
 	SharedErr     bool   `json:"shared_err"` // second call of an ordered pair sharing one error object
 }
 
